@@ -123,6 +123,55 @@ func probeChildren() childTables {
 					}
 				}
 			}
+			// Children() must not depend on the scalar fields of the node (a kind / type discriminant, a flag): with
+			// every exported integer-kinded or boolean field set to each of a range of values, a planted node is still
+			// returned exactly once
+			if row.Emitted {
+				for fi := 0; fi < t.NumField() && row.Emitted; fi++ {
+					sf := t.Field(fi)
+					if !sf.IsExported() {
+						continue
+					}
+					var vals []int64
+					switch sf.Type.Kind() {
+					case reflect.Int, reflect.Int8, reflect.Int16, reflect.Int32, reflect.Int64, reflect.Uint, reflect.Uint8, reflect.Uint16, reflect.Uint32:
+						for v := int64(0); v < 48; v++ {
+							vals = append(vals, v)
+						}
+					case reflect.Bool:
+						vals = []int64{0, 1}
+					default:
+						continue
+					}
+					for _, v := range vals {
+						inst2 := reflect.New(t)
+						f2 := inst2.Elem().Field(fi)
+						if f2.Kind() == reflect.Bool {
+							f2.SetBool(v == 1)
+						} else if f2.CanInt() {
+							f2.SetInt(v)
+						} else {
+							f2.SetUint(uint64(v))
+						}
+						pl2 := plant(inst2.Elem(), p, fmt.Sprintf("SENTINEL_%s_%d_d%d", t.Name(), i, v), 0)
+						if !pl2.OK {
+							break
+						}
+						kids2, pan2 := safeChildren(inst2.Interface().(ast.Node))
+						n := 0
+						for _, k := range kids2 {
+							if pl2.matches(k) {
+								n++
+							}
+						}
+						if n != 1 || pan2 != "" {
+							row.Emitted = false
+							row.Why = fmt.Sprintf("not returned exactly once (%d times) when field %s = %d", n, sf.Name, v)
+							break
+						}
+					}
+				}
+			}
 			res.Rows = append(res.Rows, row)
 		}
 		// all at once
